@@ -237,6 +237,14 @@ func typedExact(r *CRecord, pkg string) []problem {
 	return out
 }
 
+// opKey: deliverability is learned and demanded separately for the two value ranges of the harness.
+func opKey(c *RawCall) string {
+	if c.V&1 == 0 {
+		return c.TOp + "#small"
+	}
+	return c.TOp
+}
+
 func reachedSide(t *TypedRec) *TypedSide {
 	for _, s := range t.Sides {
 		if s != nil && s.Reached {
@@ -257,16 +265,19 @@ func typedDeliver(r *CRecord, pkg string, ds *deliverSet) []problem {
 	}
 	var out []problem
 	rs := reachedSide(t)
-	if ds.req[r.Call.TOp] {
+	if ds.req[opKey(&r.Call)] {
 		if rs == nil {
 			st := 0
 			if len(r.Sides) > 0 {
 				st = r.Sides[0].Status
+				if r.Sides[0].ErrBody != "" {
+					r.ClientErr += " | server said: " + clip(r.Sides[0].ErrBody, 250)
+				}
 			}
 			out = append(out, problem{"core-domain values are always delivered (request)", fmt.Sprintf("call t%d.o%d %s (value seed %d): the handler was not reached: server status %d, client error %q", r.Task, r.Op, r.Call.TOp, r.Call.V, st, r.ClientErr), keyOf("typed/undelivered request/" + pkg + "/" + r.Call.TOp)})
 		}
 	}
-	if rs != nil && rs.RespType != "" && ds.resp[r.Call.TOp+" "+rs.RespType] {
+	if rs != nil && rs.RespType != "" && ds.resp[opKey(&r.Call)+" "+rs.RespType] {
 		if !t.GotValue {
 			out = append(out, problem{"core-domain values are always delivered (response)", fmt.Sprintf("call t%d.o%d %s (value seed %d): the handler returned %s, the caller got error %q", r.Task, r.Op, r.Call.TOp, r.Call.V, rs.RespType, r.ClientErr), keyOf("typed/undelivered response/" + pkg + "/" + r.Call.TOp + "/" + rs.RespType)})
 		}
@@ -658,16 +669,19 @@ func learnFrom(learn map[string]*learnPkg, pkg string, r *CRecord) {
 		l = &learnPkg{Ops: map[string]*learnOp{}}
 		learn[pkg] = l
 	}
-	o := l.Ops[r.Call.TOp]
+	o := l.Ops[opKey(&r.Call)]
 	if o == nil {
 		o = &learnOp{Resp: map[string][2]int{}}
-		l.Ops[r.Call.TOp] = o
+		l.Ops[opKey(&r.Call)] = o
 	}
 	o.Core++
 	rs := reachedSide(r.T)
 	if rs == nil {
 		if o.Why == "" {
 			o.Why = clip(r.ClientErr, 200)
+			if len(r.Sides) > 0 && r.Sides[0].ErrBody != "" {
+				o.Why += " | " + clip(r.Sides[0].ErrBody, 250)
+			}
 		}
 		return
 	}
